@@ -879,17 +879,13 @@ authenticator_inside:
 		/* Use as is: pkt->authenticator = random data. */
 		hmac_md5_update(&hctx, pkt->authenticator, MD5_HASH_SIZE);
 		break;
-	case RADIUS_PKT_TYPE_ACCOUNTING_RESPONSE:
-		if (NULL != pkt_req &&
-		    pkt_req->code == RADIUS_PKT_TYPE_STATUS_SERVER)
-			goto handle_ack;
-		/* Passtrouth. */
 	case RADIUS_PKT_TYPE_ACCOUNTING_REQUEST:
 	case RADIUS_PKT_TYPE_DISCONNECT_REQUEST:
 	case RADIUS_PKT_TYPE_COA_REQUEST:
 		/* Set the authenticator to zero and calculate the HMAC. */
 		hmac_md5_update(&hctx, msg_authenticator, MD5_HASH_SIZE);
 		break;
+	case RADIUS_PKT_TYPE_ACCOUNTING_RESPONSE: /* Signed with the request authenticator, as radius_pkt_sign() does. */
 	case RADIUS_PKT_TYPE_ACCESS_ACCEPT:
 	case RADIUS_PKT_TYPE_ACCESS_REJECT:
 	case RADIUS_PKT_TYPE_ACCESS_CHALLENGE:
@@ -901,7 +897,6 @@ authenticator_inside:
 			hmac_md5_final(&hctx, msg_authenticator); /* Clear HMAC context. */
 			return (EINVAL);
 		}
-handle_ack:
 		hmac_md5_update(&hctx, pkt_req->authenticator, MD5_HASH_SIZE);
 		break;
 	default:
